@@ -1,6 +1,13 @@
-"""C04 - queue family check (see lib/queuefam.py) + the pull layer: idempotent duplicate answer, status mapping (lib/c04pull.py)."""
-from lib import c04pull, queuefam
+"""C04 - queue family check (see lib/queuefam.py) + the pull layer: idempotent duplicate answer, status mapping (lib/c04pull.py)
++ two store objects on one SQLite file (lib/twostores.py)."""
+from lib import c04pull, queuefam, twostores
+
+
+def _extra(ctx, info, rng, fam, hs):
+    cov = c04pull.run(ctx, info, rng, fam, hs) or {}
+    cov.update(twostores.run(ctx, info))
+    return cov
 
 
 def main(ctx, replay):
-    return queuefam.run_property(ctx, "C04", 150, 3000, extra=c04pull.run, extra_prop_files=("C04pull",))
+    return queuefam.run_property(ctx, "C04", 150, 3000, extra=_extra, extra_prop_files=("C04pull",))
